@@ -146,7 +146,7 @@ def guarded_site_sessions(ctx, vh, quick):
             if z == "zug 1 0 1": strict.add(f)
     hits = list(dict.fromkeys(hits))
     hits.sort(key=lambda f: f not in strict)          # those without an equally fast own mate first
-    hits = hits[:110 if quick else 3000]
+    hits = hits[:110 if quick else 1200]
     st["zugzwang_positions"], st["zugzwang_without_own_mate"] = len(hits), sum(1 for f in hits if f in strict)
     def passed(f):
         t = f.split(); t[1] = "b" if t[1] == "w" else "w"; t[3] = "-"; t[4] = "0"; return " ".join(t)
@@ -155,9 +155,9 @@ def guarded_site_sessions(ctx, vh, quick):
         r.shuffle(rs); r.shuffle(qs)
         jobs = []
         if f in strict and qs: jobs += [(qs[0], "go depth 5!"), (qs[0], "go depth 7")]      # leaves the passed position in the hash table
-        for root in rs[:2 if quick else 4]:
+        for root in rs[:2 if quick else 3]:
             st["roots"] += 1
-            jobs += [(root, f"go depth {d}") for d in r.sample([6, 7, 8, 9], 2 if quick else 4)]
+            jobs += [(root, f"go depth {d}") for d in r.sample([6, 7, 8, 9], 2 if quick else 3)]
         if jobs: sessions.append((nets[i % 3], {}, jobs))
     ctx.cov["guarded_site_roots"] = st
     return sessions
@@ -225,7 +225,8 @@ def run(ctx):
             recs = engine_job((tuple(rp.get("net", ("material", 1))), rp.get("opts", {}), [(rp["fen"], rp["go"])]))
         for x in recs: print(x.get("out", x)[-4:] if "out" in x else x)
         audit(ctx, vh, recs, set())
-        audit_interior(ctx, vh, recs, 10**9, 10**9, also=rp.get("claim"))
+        cl = rp.get("claim")       # interior claims are [kind, plies, fen]; root claims carry the `info` line (judged by audit())
+        audit_interior(ctx, vh, recs, 10**9, 10**9, also=cl if isinstance(cl, (list, tuple)) and len(cl) == 3 else None)
         ctx.count(1); ctx.distinct("a"); ctx.distinct("b")
         xlate.report(ctx, xr)
         return
